@@ -70,7 +70,7 @@ def do_chunk(chunk):
         m, form, p, s, nz = chunk[ci]
         first = rt.crypt_line("crypt_rn", 0, p, s)
         if isinstance(r, Death):
-            rt.death_violation(acc, PID, r, FL, setup + [first, ln], "rehash-" + vk + "/" + m)
+            rt.death_violation(acc, PID, r, FL, ln, "rehash-" + vk + "/" + m, setup + [first])
             continue
         if isinstance(r, Timeout) or r is None:
             acc.inconc("timeout on rehash %s" % m)
